@@ -108,8 +108,8 @@ func C06_Inject() {
 	maxV, maxW := 2, 1
 	maxPoints := 24
 	if vTier() == "thorough" {
-		maxV, maxW = 3, 2
-		maxPoints = 48
+		cfg.nKeys = 3
+		maxPoints = 32
 	}
 	h := vStartHist(cfg)
 	h.vBuildVersions(maxV, maxW)
